@@ -61,6 +61,7 @@ type Case struct {
 	P      PExp
 	Quoted bool
 	Fam    string
+	Two    int // 0: the word alone; 1: a plain expansion of the same subject in a later command; 2: in the same command
 }
 
 // ---------------------------------------------------------------- rendering to shell source
@@ -151,6 +152,25 @@ func (c Case) isAssign() bool {
 	return c.P.Op == "exp" && (c.P.ExpOp == ":=" || c.P.ExpOp == "=")
 }
 
+// a plain quoted expansion of the subject of the case (to see whether the first expansion changed it)
+func (c Case) plainAgain() string {
+	switch {
+	case c.P.Name == "@" || c.P.Name == "*":
+		return "\"$@\""
+	case c.P.Name == "r":
+		return "\"${r-UNSET}\""
+	case c.V.Kind == "idx" || c.V.Kind == "assoc":
+		if c.V.Kind == "assoc" && len(c.V.Keys) > 1 {
+			return "\"${#v[@]}\"" // the order of the values is unspecified
+		}
+		return "\"${v[@]}\""
+	case c.P.Name == "v":
+		return "\"${v-UNSET}\""
+	default:
+		return "\"$@\""
+	}
+}
+
 // script for interp/bash: setup; printf '<%s>' WORD; for assignments the value of v afterwards.
 func (c Case) script() string {
 	var pv []string
@@ -195,7 +215,15 @@ func (c Case) script() string {
 		sb.WriteString("IFS=" + hxbash.SQ(*c.IFS) + "\n")
 	}
 	// the number of fields, then the fields (printf alone cannot tell zero fields from one empty field)
-	sb.WriteString("f() { printf '%s:' \"$#\"; printf '<%s>' \"$@\"; }\nf " + w + "\n")
+	sb.WriteString("f() { printf '%s:' \"$#\"; printf '<%s>' \"$@\"; }\n")
+	switch c.Two {
+	case 1:
+		sb.WriteString("f " + w + "\nprintf '|'\nf " + c.plainAgain() + "\n")
+	case 2:
+		sb.WriteString("f " + w + " " + c.plainAgain() + "\n")
+	default:
+		sb.WriteString("f " + w + "\n")
+	}
 	if c.isAssign() {
 		sb.WriteString("printf '|<%s>' \"${v-UNSET}\"\n")
 	}
@@ -630,10 +658,18 @@ func (c Case) inDomain() bool {
 		pats = append(pats, p.Arg)
 	}
 	for _, ps := range pats {
+		unq := ""
 		for _, q := range ps {
 			if q.K == "var" && strings.Contains(q.S, "\\") {
 				return false
 			}
+			if q.K == "lit" || q.K == "var" {
+				unq += q.S
+			}
+		}
+		// an unmatched [ next to bracket expressions is pattern parsing proper (C17)
+		if strings.Count(unq, "[") != strings.Count(unq, "]") && strings.Count(unq, "[") > 1 {
+			return false
 		}
 	}
 	// ${v^^''}: a word that is present but expands to nothing (bash: matches nothing; interp: like no word)
@@ -708,6 +744,17 @@ func genDomCase(r *rand.Rand, wide bool) Case {
 			c.P.With, c.P.All = nil, false
 		}
 		if c.inDomain() {
+			// two-step cases: mostly for list subjects with an operator, where an element-wise operator
+			// could write into the variable's own list
+			if !c.isAssign() && !(c.P.Op == "exp" && (c.P.ExpOp == ":?" || c.P.ExpOp == "?")) {
+				if c.P.Op == "excl" {
+					// an indirection error is fatal in the interpreter and per command in bash (runner, C26): no second step
+				} else if c.listSubject() || c.V.Kind == "idx" {
+					c.Two = r.IntN(3)
+				} else if r.IntN(4) == 0 {
+					c.Two = 1 + r.IntN(2)
+				}
+			}
 			return c
 		}
 	}
@@ -1053,6 +1100,15 @@ func observe(c Case) genRow {
 	}
 	upd := "None"
 	_ = before_v
+	// the expansion must not write into the variables' own lists (aliasing): re-read every list variable
+	for name, orig := range c.envVars() {
+		if orig.Kind == expand.Indexed && env.setName != name {
+			now := env.m[name]
+			if cGoVar(now) != cGoVar(orig) {
+				upd = "(Some (" + cStr(name) + "," + cGoVar(now) + "))" // the model says None: reported as a mismatch
+			}
+		}
+	}
 	if env.setName != "" {
 		upd = "(Some (" + cStr(env.setName) + "," + cGoVar(env.m[env.setName]) + "))"
 	}
